@@ -20,6 +20,7 @@ def liveAfter (m : Manifest) (op : Op) : List PRow :=
   match op with
   | .create _ _ _ => live m
   | .append _ rows => live m ++ numberRows (m.version + 1) m.nextRowId rows
+  | .appendVia _ _ rows => live m ++ numberRows (m.version + 1) m.nextRowId rows
   | .overwrite _ rows => numberRows (m.version + 1) m.nextRowId rows
   | .delete p => (live m).filter fun r => !predHit p r
   | .update p y => ((live m).filter fun r => !predHit p r) ++ updatedRowsOf m.frags (m.version + 1) p y
@@ -62,6 +63,7 @@ theorem reserveStart_ge (m : Manifest) (n : Nat) : startId m.maxFragId ≤ reser
 def nextAfter (m : Manifest) (op : Op) : Nat :=
   match op with
   | .append _ rows => m.nextRowId + rows.length
+  | .appendVia _ _ rows => m.nextRowId + rows.length
   | .overwrite _ rows => m.nextRowId + rows.length
   | .upsert rows => m.nextRowId + (upsertNew m.frags rows).length
   | _ => m.nextRowId
@@ -121,6 +123,24 @@ theorem step_cons (m : Manifest) (h : Hist) (op : Op) (hok : FragOk m) :
         · refine (live_nextManifest _ _ _).trans ?_
           rw [liveOf_append, live_writtenFrags _ _ _ _ hf]
           exact List.Perm.refl _
+  | appendVia rv f rows =>
+    simp only [step]
+    split
+    · left; rfl
+    · split
+      · left; rfl
+      · split
+        · left; rfl
+        · split
+          · left; rfl
+          · rename_i _ _ hf _
+            right
+            refine ⟨_, rfl, rfl, ?_, rfl, ?_⟩
+            · apply fragOk_nextManifest
+              exact nodup_old_new hok (List.Sublist.refl _) (fragIds_assign_nodup _ _) (assign_ge _ _)
+            · refine (live_nextManifest _ _ _).trans ?_
+              rw [liveOf_append, live_writtenFrags _ _ _ _ hf]
+              exact List.Perm.refl _
   | overwrite f rows =>
     simp only [step]
     split
@@ -130,9 +150,11 @@ theorem step_cons (m : Manifest) (h : Hist) (op : Op) (hok : FragOk m) :
       · rename_i _ hf
         right
         refine ⟨_, rfl, rfl, ?_, rfl, ?_⟩
-        · apply fragOk_nextManifest
+        · change FragOk (nextManifest m (writtenFrags (m.version + 1) 0 m.nextRowId f rows) (m.nextRowId + rows.length))
+          apply fragOk_nextManifest
           exact fragIds_assign_nodup _ _
-        · refine (live_nextManifest _ _ _).trans ?_
+        · change (live (nextManifest m (writtenFrags (m.version + 1) 0 m.nextRowId f rows) (m.nextRowId + rows.length))).Perm _
+          refine (live_nextManifest _ _ _).trans ?_
           rw [live_writtenFrags _ _ _ _ hf]
           exact List.Perm.refl _
   | delete p =>
@@ -243,6 +265,7 @@ theorem step_nil (op : Op) :
       · refine (live_sortFrags _).trans ?_
         rw [live_writtenFrags _ _ _ _ hf]
   | append f rows => left; rfl
+  | appendVia rv f rows => left; rfl
   | overwrite f rows => left; rfl
   | delete p => left; rfl
   | update p y => left; rfl
